@@ -31,7 +31,7 @@ def withFile (s : String) (f : Bytes → List Cmd → String) : String :=
 def fmtFloatStub (_ : UInt64) : Bytes := [70, 63]
 
 def ops : List Op := [
-  ("print", fun f => match f with
+  ("exprstr", fun f => match f with
     | [_, s] => withExpr s fun e => okBytes (Printer.printExpr fmtFloatStub e)
     | _ => "BADREQ"),
   ("printcmd", fun f => match f with
